@@ -260,7 +260,7 @@ def check_version_ordering(ctx):
     cls = get_class(t, 'ProtocolVersion')
     ops = {}
     for name in ('__eq__', '__ne__', '__lt__', '__le__', '__gt__', '__ge__'):
-        m = get_method(cls, name, optional=True)
+        m = get_method(cls, name, optional=True, raw=True)      # as written: the evaluator below follows helper calls itself
         if m is not None:
             ops[name] = m
     ctx.need('__eq__' in ops and '__lt__' in ops, 'anchor vanished: ProtocolVersion.__eq__/__lt__')
